@@ -27,7 +27,7 @@ def one(sid):
         for p in targets:
             r = subprocess.run([sys.executable, os.path.join(V, "check"), p, "--repo", d, "--json", "--no-evidence"], capture_output=True, text=True)
             if r.returncode == 2:
-                out[p] = "ANALYSIS-ERROR " + r.stdout.strip()[-200:]
+                out[p] = "ANALYSIS-ERROR " + r.stdout.strip()[-300:]
             else:
                 try:
                     j = json.loads(r.stdout.strip().splitlines()[-1])
